@@ -32,7 +32,7 @@ void (*m4sim_on_abort)(void);
 
 void sim_shared_init(void) {
   if (sim_shared) return;
-  void *p = mmap(NULL, 4096, PROT_READ | PROT_WRITE, MAP_SHARED | MAP_ANONYMOUS, -1, 0);
+  void *p = mmap(NULL, SIM_SHARED_BYTES, PROT_READ | PROT_WRITE, MAP_SHARED | MAP_ANONYMOUS, -1, 0);
   if (p == MAP_FAILED) { perror("mmap"); _exit(2); }
   sim_shared = (shared_page_t *)p;
   memset((void *)sim_shared, 0, sizeof *sim_shared);
